@@ -734,17 +734,14 @@ func (fc *FCtx) evalCompositeLit(e *ast.CompositeLit, st *State) Val {
 		return cur
 	case KOpaque:
 		if isBz(s) {
-			b := fc.U.Fresh("lit", s)
-			cs := []string{fmt.Sprintf("(= (bz_len %s) %d)", b, len(e.Elts)), fmt.Sprintf("(= (bz_cap %s) %d)", b, len(e.Elts)), fmt.Sprintf("(not (= %s bz_nil))", b)}
-			for i, el := range e.Elts {
+			var es []string
+			for _, el := range e.Elts {
 				if _, ok := el.(*ast.KeyValueExpr); ok {
 					oos("keyed byte literal")
 				}
-				v := fc.eval(el, st)
-				cs = append(cs, fmt.Sprintf("(= (bz_at %s %d) %s)", b, i, v.T))
+				es = append(es, fc.eval(el, st).T)
 			}
-			st.assume(and(cs...))
-			return Val{T: b, S: s, GoT: t}
+			return Val{T: fc.bzMk(es), S: s, GoT: t}
 		}
 	}
 	oos("composite literal of %s", s.Name)
